@@ -982,9 +982,35 @@ fn run_and_judge(prog: &Program, strategy: Strategy, serial: bool, focus: &str) 
             }
         }
     }
+    // ---- what a concurrent history left behind must survive a clean restart unchanged
+    let before = cassadilia_verif::oracle::observe(&ctx.cas);
+    let root = ctx.root.clone();
     drop(ctx);
-    drop(prep.ctx);
-    fsx::rm_rf(&prep.base);
+    let Prepared { ctx: pctx, base } = prep;
+    let sole_owner = Arc::try_unwrap(pctx).is_ok(); // drops the handle (and the scan result)
+    if sole_owner && !any_error {
+        match Cas::<String>::open(&root, config(prog.n_ops, true, false, true, true)) {
+            Ok(cas) => {
+                let after = cassadilia_verif::oracle::observe(&cas);
+                let d = before.diff(&after, true);
+                if !d.is_empty() {
+                    findings.push(Finding::new(
+                        &["C02", focus_static(focus)],
+                        "state left by a concurrent history changed across a clean restart",
+                        "reopen after concurrent run",
+                        d.join("; "),
+                    ));
+                }
+            }
+            Err(e) => findings.push(Finding::new(
+                &["C02", focus_static(focus)],
+                &format!("reopen after a concurrent history failed: {}", class_of_err(&err_chain(&e))),
+                "reopen after concurrent run",
+                err_chain(&e),
+            )),
+        }
+    }
+    fsx::rm_rf(&base);
     Ok(Judged { findings, outcome, feats, fatal: false })
 }
 
@@ -1008,6 +1034,7 @@ fn class_of_err(e: &str) -> String {
 
 fn focus_static(focus: &str) -> &'static str {
     match focus {
+        "C02" => "C02",
         "C05" => "C05",
         "C06" => "C06",
         "C07" => "C07",
